@@ -34,6 +34,7 @@ import (
 // Service vs.T (dynamic):
 //
 //	Unary(Req) Rsp          post /t/unary body *   | get /t/unary/{s} | websocket /ws/unary
+//	(every one of the four call shapes also has a body-less websocket /ws/nobody/<shape>/{s})
 //	CS(stream Req) Rsp      post /t/cs body *      | websocket /ws/cs
 //	SS(Req) stream Rsp      post /t/ss body *      | get /t/ss/{s}    | websocket /ws/ss
 //	Bidi(stream Req) stream Rsp  post /t/bidi body * | websocket /ws/bidi
@@ -60,6 +61,7 @@ type tSchema struct {
 
 func newTSchema() (*tSchema, error) {
 	ws := func(p string) dyn.Rule { return dyn.Rule{Kind: "websocket", Path: p, Body: "*"} }
+	wsNoBody := func(p string) dyn.Rule { return dyn.Rule{Kind: "websocket", Path: p} } // the message comes from the URL alone
 	msgs := []*descriptorpb.DescriptorProto{
 		dyn.Msg("Req", dyn.Str("s", 1), dyn.Bytes("b", 2), dyn.Int32("n", 3)),
 		dyn.Msg("Rsp", dyn.Str("s", 1), dyn.Bytes("b", 2), dyn.Int32("n", 3)),
@@ -67,10 +69,10 @@ func newTSchema() (*tSchema, error) {
 		dyn.Msg("Wrap", dyn.MsgField("rsp", 1, ".vs.Rsp"), dyn.Str("other", 2)),
 	}
 	f := dyn.File{Name: "vs/t.proto", Pkg: "vs", Messages: msgs, Services: []dyn.Service{{Name: "T", Methods: []dyn.Method{
-		{Name: "Unary", In: "Req", Out: "Rsp", Rule: &dyn.Rule{Kind: "post", Path: "/t/unary", Body: "*", Add: []dyn.Rule{{Kind: "get", Path: "/t/unary/{s}"}, ws("/ws/unary")}}},
-		{Name: "CS", In: "Req", Out: "Rsp", CS: true, Rule: &dyn.Rule{Kind: "post", Path: "/t/cs", Body: "*", Add: []dyn.Rule{ws("/ws/cs")}}},
-		{Name: "SS", In: "Req", Out: "Rsp", SS: true, Rule: &dyn.Rule{Kind: "post", Path: "/t/ss", Body: "*", Add: []dyn.Rule{{Kind: "get", Path: "/t/ss/{s}"}, ws("/ws/ss")}}},
-		{Name: "Bidi", In: "Req", Out: "Rsp", CS: true, SS: true, Rule: &dyn.Rule{Kind: "post", Path: "/t/bidi", Body: "*", Add: []dyn.Rule{ws("/ws/bidi")}}},
+		{Name: "Unary", In: "Req", Out: "Rsp", Rule: &dyn.Rule{Kind: "post", Path: "/t/unary", Body: "*", Add: []dyn.Rule{{Kind: "get", Path: "/t/unary/{s}"}, ws("/ws/unary"), wsNoBody("/ws/nobody/unary/{s}")}}},
+		{Name: "CS", In: "Req", Out: "Rsp", CS: true, Rule: &dyn.Rule{Kind: "post", Path: "/t/cs", Body: "*", Add: []dyn.Rule{ws("/ws/cs"), wsNoBody("/ws/nobody/cs/{s}")}}},
+		{Name: "SS", In: "Req", Out: "Rsp", SS: true, Rule: &dyn.Rule{Kind: "post", Path: "/t/ss", Body: "*", Add: []dyn.Rule{{Kind: "get", Path: "/t/ss/{s}"}, ws("/ws/ss"), wsNoBody("/ws/nobody/ss/{s}")}}},
+		{Name: "Bidi", In: "Req", Out: "Rsp", CS: true, SS: true, Rule: &dyn.Rule{Kind: "post", Path: "/t/bidi", Body: "*", Add: []dyn.Rule{ws("/ws/bidi"), wsNoBody("/ws/nobody/bidi/{s}"), ws("/ws/pv/{s}")}}},
 		{Name: "Upload", In: "Up", Out: ".google.api.HttpBody", CS: true, SS: true, Rule: &dyn.Rule{Kind: "post", Path: "/t/up/{filename}", Body: "file"}},
 		{Name: "Raw", In: "Up", Out: ".google.api.HttpBody", Rule: &dyn.Rule{Kind: "post", Path: "/t/raw/{filename}", Body: "file"}},
 		{Name: "Sel", In: "Req", Out: "Wrap", Rule: &dyn.Rule{Kind: "post", Path: "/t/sel", Body: "*", Resp: "rsp"}},
@@ -124,6 +126,7 @@ type hScript struct {
 	PingPong   bool            // bidi: recv one, send one, …
 	Header     metadata.MD     // grpc.SetHeader before anything
 	SendHdr    metadata.MD     // grpc.SendHeader before the first reply
+	SendHdrNow bool            // streaming handlers: send SendHdr at once, even if no reply follows
 	HeaderMid  metadata.MD     // grpc.SetHeader after the first reply was sent (must fail or be ignored)
 	Trailer    metadata.MD     // grpc.SetTrailer before returning
 	TrailerMid metadata.MD     // grpc.SetTrailer after the first reply
@@ -200,6 +203,10 @@ func (i *tImpl) Stream(c *dyn.Call) error {
 	}
 	if s.RawUpload {
 		return i.rawUpload(c)
+	}
+	if s.SendHdrNow && s.SendHdr != nil {
+		i.log.HdrErr = append(i.log.HdrErr, st.SendHeader(s.SendHdr))
+		s.SendHdr = nil
 	}
 	recvOne := func() bool {
 		m := dynamicpb.NewMessage(c.Desc.Input())
@@ -663,6 +670,75 @@ func doWSPrep(m http.Handler, path, rawQuery string, hdr http.Header, clientFram
 // wsText builds one masked client text frame.
 func wsText(payload []byte) []byte {
 	return wire.WSClientFrame(true, wire.OpText, payload, [4]byte{0x11, 0x22, 0x33, 0x44})
+}
+
+// revCodec is a custom codec registered with larking.CodecOption("application/x-rev", …):
+// the protobuf encoding with its bytes reversed. It is not a stream codec.
+type revCodec struct{}
+
+func (revCodec) Name() string { return "rev" }
+func (revCodec) Marshal(v any) ([]byte, error) {
+	m, ok := v.(proto.Message)
+	if !ok {
+		return nil, fmt.Errorf("rev: not a proto.Message: %T", v)
+	}
+	b, err := proto.Marshal(m)
+	return revBytes(b), err
+}
+func (c revCodec) MarshalAppend(dst []byte, v any) ([]byte, error) {
+	b, err := c.Marshal(v)
+	return append(dst, b...), err
+}
+func (revCodec) Unmarshal(data []byte, v any) error {
+	m, ok := v.(proto.Message)
+	if !ok {
+		return fmt.Errorf("rev: not a proto.Message: %T", v)
+	}
+	return proto.Unmarshal(revBytes(data), m)
+}
+
+func revBytes(b []byte) []byte {
+	out := make([]byte, len(b))
+	for i := range b {
+		out[len(b)-1-i] = b[i]
+	}
+	return out
+}
+
+// rotCompressor is a custom compressor registered with larking.CompressorOption("x-rot", …):
+// every byte XOR 0x5a (size-preserving, stateless).
+type rotCompressor struct{}
+
+func (rotCompressor) Name() string                                 { return "x-rot" }
+func (rotCompressor) Compress(w io.Writer) (io.WriteCloser, error) { return rotW{w}, nil }
+func (rotCompressor) Decompress(r io.Reader) (io.Reader, error)    { return rotR{r}, nil }
+
+type rotW struct{ w io.Writer }
+
+func (x rotW) Write(p []byte) (int, error) { return x.w.Write(rotBytes(p)) }
+func (x rotW) Close() error                { return nil }
+
+type rotR struct{ r io.Reader }
+
+func (x rotR) Read(p []byte) (int, error) {
+	n, err := x.r.Read(p)
+	for i := 0; i < n; i++ {
+		p[i] ^= 0x5a
+	}
+	return n, err
+}
+
+func rotBytes(b []byte) []byte {
+	out := make([]byte, len(b))
+	for i := range b {
+		out[i] = b[i] ^ 0x5a
+	}
+	return out
+}
+
+// customOpts: the custom codec and compressor, as mux options.
+func customOpts() []larking.MuxOption {
+	return []larking.MuxOption{larking.CodecOption("application/x-rev", revCodec{}), larking.CompressorOption("x-rot", rotCompressor{})}
 }
 
 // wsFrag sends one text message as k frames (text, continuation…, the last with FIN), the
